@@ -22,7 +22,7 @@ KS = [[2, 1], [4, 1], [1, 2], [3, 1], [3, 2]]
 def run(ck: Check):
     thorough = ck.tier == "thorough"
     ck.rule = ("micro-specs (1 Einsum, 2-3 memories, finite sizes, nonzero leak power in some); k in {2, 4, 1/2, 3, 3/2} for "
-               "energies/leak, k in {2, 4, 1/2} for throughputs, k in {2, 3} for workload and Einsum n_instances; optimum of ENERGY, LATENCY, "
+               "energies/leak, k in {2, 4, 1/2} for throughputs, k in {2, 3} for workload and Einsum n_instances (each alone and both together); optimum of ENERGY, LATENCY, "
                "EDP recorded for base and scaled spec. Non-trivial = step with k != 1 whose base optimum is non-zero; "
                "distinct by (micro-spec, action, k).")
     worlds = cc.small_worlds(ck, 3 if not thorough else 12, 300)
@@ -47,6 +47,10 @@ def run(ck: Check):
             configs.append((("ScaleInstances", w["id"], "workload:%d/1" % k), v, None))
             v = copy.deepcopy(w); v["einst"] = k
             configs.append((("ScaleInstances", w["id"], "einsum:%d/1" % k), v, None))
+            # both levels at once: the repeat counts multiply
+            k2 = 5 - k
+            v = copy.deepcopy(w); v["ninst"] = k; v["einst"] = k2
+            configs.append((("ScaleInstances", w["id"], "both:%d/1" % (k * k2)), v, None))
     obs = cc.observe(ck, configs, need_valid=True)
     traces, cfg_by_step = [], {}
     for w in worlds:
